@@ -742,7 +742,7 @@ HY_CELLS = [
     ("hybrid/rec/2blk/warmup-default-freq", 2, 1, ["KRec"] * 2, None, [("warmup", 10, 0.1), ("sample", 1)]),
     ("hybrid/rec/3blk/warmup-twice", 3, 2, ["KRec"] * 3, [2, 1, 1], [("warmup", 2, 0.5), ("sample", 1), ("warmup", 3, 1.0), ("sample", 2)]),
     ("hybrid/rec/2blk/warmup-fractional-interval", 2, 1, ["KRec"] * 2, [1, 2], [("warmup", 3, 0.5), ("warmup", 5, 0.75), ("sample", 1)]),
-    ("hybrid/pre+rec/3blk/lik/steps", 3, 1, ["KPre", "KRec", "KPre"], [2, 1, 1], [("sample", 3)]),
+    ("hybrid/pre+rec/3blk/lik/steps", 3, 1, ["KRec", "KPre", "KRec"], [1, 2, 1], [("sample", 3)]),
     ("hybrid/pre+mh+nuts/4blk/lik2/warmup", 4, 2, ["KMH", "KPre", "KNuts", "KRec"], [1, 2, 1, 0], [("warmup", 2, 0.5), ("sample", 2)]),
     ("hybrid/mh/2blk/sample", 2, 0, ["KMH", "KMH"], None, [("sample", 4)]),
     ("hybrid/mh/3blk/lik/steps", 3, 1, ["KMH", "KMH", "KMH"], [2, 1, 3], [("sample", 3)]),
@@ -757,7 +757,7 @@ HY_CELLS = [
 
 def gen_hybrid(rng, cell, rep=1):
     name, k, ndata, kinds, steps, ops = cell
-    leaf = kinds.index("KDirect") if "KDirect" in kinds else None
+    leaf = kinds.index("KDirect") if "KDirect" in kinds else (kinds.index("KPre") if "KPre" in kinds else None)   # no feedback of their draws
     dims = [rng.choice([1, 1, 2]) for _ in range(k)]
     force_scalar = (rep % 3 == 0)              # every third scenario of a cell: block 0 is one-dimensional and starts from a plain number
     if force_scalar:
